@@ -144,6 +144,21 @@ chk("C06",
     "TLA+ spec + TLC; spec->impl replay comparing spec, compiled macro output (nm) and every backend's output",
     "DESIGN.md §5 C06")
 
+chk("C07",
+    "spec/abi/Abi.tla maps every Diplomat type to its C ABI shape (scalars with width/signedness, pointers, {ptr,len} views, "
+    "{union,bool} option/result records, by-value structs), defines the native signature of a method (self, parameters in order, "
+    "write handle last) and C struct layout; TLC checks SpellingIndependent, NullNiche, FlagLast, UnitNoPayload and LayoutSane over "
+    "the catalogue and refutes a flag-first encoding. The catalogue (206 structured-coverage signatures + TLC-simulated "
+    "combinations of <=3 parameters) is rendered to one bridge and the real dart and kotlin backends are run; their @ffi.Native "
+    "declarations / ffi.Struct mirrors and JNA Library interfaces / Structure classes are parsed into shape trees through fixed "
+    "vocabulary tables and compared slot by slot with the spec (parameter count and order, width, signedness, float kind, "
+    "pointer vs by-value, record shapes, field order).",
+    "No Dart/Kotlin toolchain: declarations are compared statically; dart:ffi and JNA are trusted to marshal as documented. "
+    "Kotlin vocabulary: code point = Int, bool in fields/returns = Byte, empty unions occupy no storage. The same Abi.tla "
+    "shapes are validated dynamically against rustc + gcc by C01.",
+    "TLA+ spec + TLC; spec->impl replay: generated declarations parsed and compared with spec-computed ABI shapes",
+    "DESIGN.md §5 C07")
+
 NOT_YET = {}
 
 
